@@ -140,15 +140,15 @@ def specs(tier='quick'):
   A(Spec('TopKWordNGrams_k2_bigrams', lambda: agg_text.TopKWordNGrams(k=2, n=2, count_duplicate=False), text_row((3, 2, 2)),
          lambda m: m.result(), TXT, max_comps=4))
   A(Spec('PatternFrequency', lambda: agg_text.PatternFrequency(patterns=('a', 'ab')), text_row((2, 2, 2)), lambda m: m.result(), TXT))
+  # wide state: text 0 carries 10 fixed words x5 plus two solver-chosen words, the other texts two solver-chosen words each, so a merged
+  # state holds more than 10*k distinct n-grams and a word that is rare per state can be the most frequent overall (seed C11-m4)
+  WIDE = ' '.join('k' + 'abcdefghij'[j] for j in range(10) for _ in range(5))   # letters only: the tokenizer drops digits
+  def wide_row(c, i):
+    tail = ' '.join('zy'[int(c.int(f'w{i}_{j}', 0, 1))] for j in range(2))
+    return ((WIDE + ' ' + tail) if i == 0 else tail,)
+  A(Spec('TopKWordNGrams_k1_wide', lambda: agg_text.TopKWordNGrams(k=1, n=1), wide_row, lambda m: m.result(), TXT, max_comps=4,
+         note='more than 10*k distinct words in one merged state; only the four to eight tail words are solver-chosen'))
   if tier == 'laws':   # smaller text inputs for the algebraic-law check (C11): up to 4 texts are involved there
-    # wide state: text 0 carries 10 fixed words x5 plus two solver-chosen words, the other texts two solver-chosen words each, so a merged
-    # state holds more than 10*k distinct n-grams and a word that is rare per state can be the most frequent overall (seed C11-m4)
-    WIDE = ' '.join('k' + 'abcdefghij'[j] for j in range(10) for _ in range(5))   # letters only: the tokenizer drops digits
-    def wide_row(c, i):
-      tail = ' '.join('zy'[int(c.int(f'w{i}_{j}', 0, 1))] for j in range(2))
-      return ((WIDE + ' ' + tail) if i == 0 else tail,)
-    A(Spec('TopKWordNGrams_k1_wide', lambda: agg_text.TopKWordNGrams(k=1, n=1), wide_row, lambda m: m.result(), TXT, max_comps=4,
-           note='more than 10*k distinct words in one merged state; only the four to eight tail words are solver-chosen'))
     for sp in S:
       if sp.name == 'TopKWordNGrams_k1':
         sp.gen = text_row((2, 2, 1), 'ab')
